@@ -79,6 +79,9 @@ class NumEnv:
     def is_real(self, x):
         return isinstance(x, (float, int, np.floating, np.integer)) and not isinstance(x, bool)
 
+    def sos(self, *terms):
+        pass
+
     def D(self, x, th):
         raise OutOfDomain('formal derivative is symbolic-only')
 
